@@ -12,12 +12,24 @@ SpecErr(r, what) == PrintT("SPECERR " \o ToJson(<<r.id, what>>)) /\ FALSE
 FirstDiff(a, b) == LET D == {j \in 1..Len(a) : j > Len(b) \/ a[j] # b[j]}
                    IN IF D = {} THEN Len(a) + 1 ELSE CHOOSE j \in D : \A k \in D : j <= k
 
+\* a is what remains of b after leaving some elements out (order kept, nothing twice)
+RECURSIVE IsOrderedPart(_, _)
+IsOrderedPart(a, b) ==
+  IF a = <<>> THEN TRUE
+  ELSE IF b = <<>> THEN FALSE
+  ELSE IF Head(a) = Head(b) THEN IsOrderedPart(Tail(a), Tail(b))
+  ELSE IsOrderedPart(a, Tail(b))
+
 Check(r) ==
   LET stream == Concat(r.sent)
       exp == Messages(stream)
   IN /\ ((\A j \in 1..Len(r.sent) : WellFramed(r.sent[j])) \/ SpecErr(r, "scenario message is not well framed"))
      /\ (exp = r.sent \/ SpecErr(r, "functional reader does not reproduce the sent messages"))
-     /\ (r.delivered = exp
+     /\ ((IF r.stopped > 0
+           THEN /\ Len(r.delivered) >= r.stopped
+                /\ SubSeq(r.delivered, 1, r.stopped) = SubSeq(exp, 1, r.stopped)
+                /\ IsOrderedPart(SubSeq(r.delivered, r.stopped + 1, Len(r.delivered)), SubSeq(exp, r.stopped + 1, Len(exp)))
+           ELSE r.delivered = exp)
            \/ Rej(r, "handler was not given exactly the messages its peer sent (each once, whole, in order)",
                   [role |-> r.role, sent |-> Len(r.sent), delivered |-> Len(r.delivered), firstDifference |-> FirstDiff(exp, r.delivered),
                    chunks |-> r.chunks]))
